@@ -21,6 +21,7 @@ func checkC19(p *Prog, r *Report) {
 	ruleC19Param(p, a, r)
 	ruleArgScope(p, a, r, "R-C19-ARGSCOPE")
 	ruleC19Unknown(p, a, r)
+	ruleC19DeferredNames(p, a, r)
 	ruleC19Reg(p, a, r)
 	ruleC19Grow(p, a, r)
 	ruleFilterBindsTightest(p, a, r, "R-C19-BIND")
@@ -691,6 +692,113 @@ func ruleFilterBindsTightest(p *Prog, a *Anchors, r *Report, rule string) {
 			default:
 				r.Bad(key, p.InstrPos(e.Site), "%s parses filters at another grammar level", g)
 			}
+		}
+	}
+}
+
+// ruleC19DeferredNames: where a filter is applied by NAME at execution time (ApplyFilter(node.name, …)), the name was
+// written in the template and stored into the node at compile time. "A filter name that is not registered never renders
+// silently — compile-time error" then needs the parser that stores the name to test that it exists; relying on the
+// execution-time lookup means an unreached tag ({% if off %}{% filter nosuch %}…) compiles and renders.
+func ruleC19DeferredNames(p *Prog, a *Anchors, r *Report) {
+	r.Begin("R-C19-DEFERRED", "a filter name that is stored in the compiled tree for by-name application at execution time was tested against the registry (error edge) by the parser that stores it", 1)
+	apply := p.Func("ApplyFilter")
+	if apply == nil {
+		r.Unk("anchor", "-", "anchor unresolved: ApplyFilter")
+		return
+	}
+	type fld struct{ typ, name string }
+	fields := map[fld]bool{}
+	for _, f := range p.inPkgFuncsSorted(a.ExecReach()) {
+		for _, c := range callsTo(f, apply) {
+			if _, n, fl := fieldLoadBase(c.Common().Args[0]); n != nil && a.CompiledTypes[n.Obj().Name()] {
+				fields[fld{n.Obj().Name(), fl}] = true
+			}
+		}
+	}
+	if len(fields) == 0 {
+		r.Trivial("none", "-", "no by-name filter application on a compiled-tree field")
+		return
+	}
+	for fd := range fields {
+		stores := 0
+		p.EachInstr(func(f *ssa.Function, in ssa.Instruction) {
+			st, ok := in.(*ssa.Store)
+			if !ok || !isFieldAddrOf(st.Addr, fd.typ, fd.name) {
+				return
+			}
+			stores++
+			key := p.FuncName(f) + ":" + fd.typ + "." + fd.name
+			// an existence test of the stored value whose miss edge is an error, passed by every successful return
+			var test ssa.Instruction
+			obj := st.Addr.(*ssa.FieldAddr).X
+			same := func(v ssa.Value) bool {
+				if p.VN(v) == p.VN(st.Val) {
+					return true
+				}
+				// the stored field read back from the same object
+				if base, n, fl := fieldLoadBase(v); n != nil && n.Obj().Name() == fd.typ && fl == fd.name && (base == obj || p.VN(base) == p.VN(obj)) {
+					return true
+				}
+				return false
+			}
+			for _, b := range f.Blocks {
+				for _, x := range b.Instrs {
+					c, isCall := x.(*ssa.Call)
+					if isCall && c.Common().StaticCallee() != nil && existsPredicate(p, c.Common().StaticCallee(), a.FilterRegistry) && len(c.Common().Args) == 1 && same(c.Common().Args[0]) {
+						test = x
+					}
+					if lk, isLk := x.(*ssa.Lookup); isLk && lk.CommaOk && isLoadOfGlobal(lk.X, a.FilterRegistry) && same(lk.Index) {
+						test = x
+					}
+				}
+			}
+			if test == nil {
+				r.Bad(key, p.InstrPos(in), "the filter name written in the template is stored for application at execution time without an existence test in %s: an unregistered name compiles, and renders silently whenever the tag is not reached", p.FuncName(f))
+				return
+			}
+			ok2 := true
+			for _, ret := range successReturns(f) {
+				if !ReachesInstr(in.Block(), ret) {
+					continue
+				}
+				if !MustPassFrom(in.Block(), instrIndex(in)+1, ret, func(x ssa.Instruction) bool { return x == test }) {
+					ok2 = false
+				}
+			}
+			// the miss edge of the test must be an error
+			missErr := false
+			for _, u := range refs(test.(ssa.Value)) {
+				check := func(iff *ssa.If, missIdx int) {
+					if errorReturnsOnly(f, iff.Block().Succs[missIdx]) {
+						missErr = true
+					}
+				}
+				switch x := u.(type) {
+				case *ssa.If:
+					check(x, 1)
+				case *ssa.UnOp:
+					for _, uu := range refs(x) {
+						if i2, isIf := uu.(*ssa.If); isIf {
+							check(i2, 0)
+						}
+					}
+				case *ssa.Extract:
+					for _, uu := range refs(x) {
+						if i2, isIf := uu.(*ssa.If); isIf && x.Index == 1 {
+							check(i2, 1)
+						}
+					}
+				}
+			}
+			if ok2 && missErr {
+				r.OK(key, p.InstrPos(in), "the name is tested against the registry, a miss is a compile error")
+			} else {
+				r.Bad(key, p.InstrPos(in), "the existence test of the stored filter name is not on every successful path, or its miss edge is not an error (on all paths: %v, miss is an error: %v)", ok2, missErr)
+			}
+		})
+		if stores == 0 {
+			r.Unk(fd.typ+"."+fd.name, "-", "no store to %s.%s found", fd.typ, fd.name)
 		}
 	}
 }
